@@ -324,6 +324,7 @@ func byteLevel(run *vk.Run, seed int64) {
 	}
 	if run.Thorough() {
 		carry(run, id, rng)
+		secondCarryReplay(run, rng)
 	}
 }
 
@@ -558,3 +559,71 @@ func fileBytesReal(w *strm.World, fs []strm.Frame, cut int, rng *rand.Rand) []by
 func sealReal(key []byte, f strm.Frame, P []byte) []byte {
 	return strm.SealReal(key, f.Ctr, f.Fin, f.Len, P)
 }
+
+// secondCarryReplay: 65 538 chunks streamed writer -> pipe -> reader with chunk 65 536 replaced by a copy of chunk 0
+// (same key; the counters differ by exactly 2^16). The reader must fail there and release only original plaintext.
+func secondCarryReplay(run *vk.Run, rng *rand.Rand) {
+	key := make([]byte, 32)
+	rng.Read(key)
+	pr, pw := io.Pipe()
+	go func() {
+		var first []byte
+		idx := 0
+		tap := writerFunc(func(p []byte) (int, error) {
+			out := p
+			if idx == 0 {
+				first = append([]byte{}, p...)
+			}
+			if idx == 65536 {
+				out = first
+			}
+			idx++
+			_, err := pw.Write(out)
+			return len(p), err
+		})
+		w, _ := stream.NewWriter(key, tap)
+		chunk := make([]byte, 65536)
+		for i := 0; i < 65538; i++ {
+			for j := 0; j < 8; j++ {
+				chunk[j] = byte(i >> (8 * uint(j)))
+			}
+			if _, err := w.Write(chunk); err != nil {
+				break
+			}
+		}
+		w.Close()
+		pw.Close()
+	}()
+	r, _ := stream.NewReader(key, pr)
+	buf := make([]byte, 65536)
+	n := 0
+	var rerr error
+	bad := -1
+	for {
+		_, err := io.ReadFull(r, buf)
+		if err != nil {
+			rerr = err
+			break
+		}
+		got := 0
+		for j := 0; j < 8; j++ {
+			got |= int(buf[j]) << (8 * uint(j))
+		}
+		if got != n && bad < 0 {
+			bad = n
+		}
+		n++
+	}
+	pr.Close()
+	run.Eval(1)
+	if bad >= 0 {
+		run.Violation("C02:released-not-prefix:second-carry", fmt.Sprintf("chunk %d of a 4 GiB stream was released with foreign content (a replay of chunk 0 at position 65536 was accepted)", bad), nil)
+	} else if rerr == io.EOF || rerr == nil {
+		run.Violation("C02:clean-eof-on-altered-payload:second-carry", fmt.Sprintf("a stream with chunk 65536 replaced by chunk 0 reached a clean end after %d chunks", n), nil)
+	}
+	run.Distinct("second-carry-replay")
+}
+
+type writerFunc func(p []byte) (int, error)
+
+func (f writerFunc) Write(p []byte) (int, error) { return f(p) }
